@@ -4,6 +4,8 @@ cd "$(dirname "$0")/.."
 P=${P:-4}
 ls -d ${@:-seeded/*/} | sed 's,/$,,' | xargs -P $P -I{} sh -c 'python3 tools/mutant.py {} --all > /dev/null 2>&1; python3 - {} <<PY
 import json,sys
-r=json.load(open(sys.argv[1]+"/result.json"))
+import os
+root=os.environ.get("MUTANT_RESULT_ROOT")
+r=json.load(open((os.path.join(root,"seeded",os.path.basename(sys.argv[1])) if root else sys.argv[1])+"/result.json"))
 print(r["seeded"], "suite_ok=%s demo_fail=%s demo_clean_ok=%s own_quick=%s caught_by=%s" % (r.get("suite_passes_with_patch"), r.get("demo_fails_with_patch"), r.get("demo_passes_without_patch"), r.get("caught_by_own_property_quick"), ",".join(r.get("caught_by") or [])), r.get("error","")[:200])
 PY'
